@@ -76,7 +76,11 @@ func (s *endpointPickStrategy) Pop() (*EndpointInfo, error) {
 	for _, ep := range s.upstreams {
 		info, ok := s.cluster.Endpoints.Load(ep)
 		if ok {
-			if info.IsReady() {
+			if ctx := info.Context(); ctx != nil && ctx.Err() != nil {
+				// the endpoint was removed, or its cluster was stopped (deleted), after
+				// this picker or its cluster was looked up: it must not get traffic
+				unreadyReason = append(unreadyReason, fmt.Sprintf("endpoint=%q is stopped.", info.Endpoint))
+			} else if info.IsReady() {
 				readyEndpoints = append(readyEndpoints, info)
 			} else {
 				unreadyReason = append(unreadyReason, info.UnreadyReason())
